@@ -14,13 +14,13 @@ Open Scope Z_scope.
 (* ---------------- one lemma shape for everything on_headers does to the store ---------------- *)
 Lemma on_headers_store (P : store -> Prop) cfg st p hs :
   P (d_store st) ->
-  (P (d_store st) -> P (hres_store (hloop (c_forb cfg) (d_next st) (d_store st) false None hs))) ->
+  (P (d_store st) -> P (hres_store (hloop (c_forb cfg) (sm_cps cfg) (d_next st) (d_store st) false None hs))) ->
   P (d_store (fst (on_headers cfg st p hs))).
 Proof.
   intros Hs Hl. unfold on_headers. destruct (aget p (d_states st)); [|exact Hs].
   destruct (negb (d_hfm st)); [destruct (disc_frame st p) as (E & _); rewrite E; exact Hs|].
   destruct hs as [|h0 hs0]; [exact Hs|]. specialize (Hl Hs).
-  destruct (hloop (c_forb cfg) (d_next st) (d_store st) false None (h0 :: hs0)) as [s' rc fin|s'|s']; cbn [hres_store] in Hl.
+  destruct (hloop (c_forb cfg) (sm_cps cfg) (d_next st) (d_store st) false None (h0 :: hs0)) as [s' rc fin|s'|s']; cbn [hres_store] in Hl.
   - destruct fin as [fh|]; [|exact Hl].
     destruct (if rc then d_next st else None) as [[H cid]|].
     + destruct (find_next_d (c_cps cfg) H) as [[H' c']|].
@@ -35,7 +35,7 @@ Qed.
 
 Lemma d_step_store (P : store -> Prop) cfg hint st e :
   P (d_store st) ->
-  (forall p hs, e = EHeaders p hs -> P (d_store st) -> P (hres_store (hloop (c_forb cfg) (d_next st) (d_store st) false None hs))) ->
+  (forall p hs, e = EHeaders p hs -> P (d_store st) -> P (hres_store (hloop (c_forb cfg) (sm_cps cfg) (d_next st) (d_store st) false None hs))) ->
   P (d_store (fst (d_step cfg hint st e))).
 Proof.
   intros Hs Hl. destruct e as [p cand lb|p hs|p l|p|aged|p cand lb]; try (rewrite d_step_store_other; [exact Hs| intros; discriminate]).
@@ -57,20 +57,22 @@ Proof.
     + apply Hold; exact Hr.
 Qed.
 
-Lemma hloop_ids f next hs : forall s rc fin r, In r (hres_store (hloop f next s rc fin hs)) -> In (id r) (ids s) \/ In (id r) (map s_id hs).
+Lemma hloop_ids f cps next hs : forall s rc fin r, In r (hres_store (hloop f cps next s rc fin hs)) -> In (id r) (ids s) \/ In (id r) (map s_id hs).
 Proof.
   induction hs as [|h hs IH]; intros s rc fin r Hr; [left; apply in_map; exact Hr|].
   cbn [hloop] in Hr. pose proof (add_ids f s h) as Ha. destruct (add f s h) as [s' o]. cbn [fst] in Ha.
   assert (Hstep: forall x, In (id x) (ids s') -> In (id x) (ids s) \/ In (id x) (map s_id (h :: hs))).
   { intros x Hx. apply in_map_iff in Hx. destruct Hx as (y & Ey & Hy). destruct (Ha y Hy) as [H1|H1]; rewrite <- Ey; [left; exact H1| right; left; symmetry; exact H1]. }
-  assert (Hrec: forall rc' fin', In r (hres_store (hloop f next s' rc' fin' hs)) -> In (id r) (ids s) \/ In (id r) (map s_id (h :: hs))).
+  assert (Hrec: forall rc' fin', In r (hres_store (hloop f cps next s' rc' fin' hs)) -> In (id r) (ids s) \/ In (id r) (map s_id (h :: hs))).
   { intros rc' fin' H. destruct (IH _ _ _ _ H) as [H1|H1]; [apply Hstep; exact H1| right; right; exact H1]. }
   assert (Hstop: In r s' -> In (id r) (ids s) \/ In (id r) (map s_id (h :: hs))).
   { intros H. apply Hstep. apply in_map. exact H. }
   destruct o as [x| | |]; try (apply (Hrec _ _ Hr)); try (apply Hstop; exact Hr).
-  destruct next as [[H cid]|]; [|apply (Hrec _ _ Hr)].
-  destruct (height (create_header s h) =? H); [|apply (Hrec _ _ Hr)].
-  destruct (N.eqb (s_id h) cid); [apply (Hrec _ _ Hr)| apply Hstop; exact Hr].
+  destruct next as [[H cid]|].
+  - destruct (height (create_header s h) =? H).
+    + destruct (N.eqb (s_id h) cid); [apply (Hrec _ _ Hr)| apply Hstop; exact Hr].
+    + destruct (contradicts cps x (height (create_header s h)) (s_id h)); [apply Hstop; exact Hr| apply (Hrec _ _ Hr)].
+  - destruct (contradicts cps x (height (create_header s h)) (s_id h)); [apply Hstop; exact Hr| apply (Hrec _ _ Hr)].
 Qed.
 
 Fixpoint delivered (evs : list (N * devent)) : list N :=
@@ -90,7 +92,7 @@ Proof.
     { intros x. apply (d_step_store (fun s' => In (id x) (ids s') -> In (id x) (ids (d_store st)) \/ In (id x) (delivered ((hint, e) :: evs)))).
       - intros H; left; exact H.
       - intros p hs -> _ Hx. apply in_map_iff in Hx. destruct Hx as (y & Ey & Hy).
-        destruct (hloop_ids _ _ _ _ _ _ y Hy) as [H2|H2]; rewrite <- Ey; [left; exact H2| right; cbn [delivered]; apply in_or_app; left; exact H2]. }
+        destruct (hloop_ids _ _ _ _ _ _ _ y Hy) as [H2|H2]; rewrite <- Ey; [left; exact H2| right; cbn [delivered]; apply in_or_app; left; exact H2]. }
     apply Hgen. exact H1.
   - right. destruct e; cbn [delivered]; try exact H1. apply in_or_app. right. exact H1.
 Qed.
@@ -129,20 +131,22 @@ Qed.
 
 Definition pos_hdrs (hs : list src) := forall h, In h hs -> 0 < calc_work (p_bits (s_pl h)) /\ s_id h <> 0%N.
 
-Lemma hloop_tip_mono f next hs : forall s rc fin, Valid s -> pos_hdrs hs ->
-  Valid (hres_store (hloop f next s rc fin hs)) /\ tip_cum s <= tip_cum (hres_store (hloop f next s rc fin hs)).
+Lemma hloop_tip_mono f cps next hs : forall s rc fin, Valid s -> pos_hdrs hs ->
+  Valid (hres_store (hloop f cps next s rc fin hs)) /\ tip_cum s <= tip_cum (hres_store (hloop f cps next s rc fin hs)).
 Proof.
   induction hs as [|h hs IH]; intros s rc fin Hv Hp; [split; [exact Hv| cbn; lia]|].
   cbn [hloop]. destruct Hv as (tip & HI2). destruct (Hp h (or_introl eq_refl)) as [Hw Hz].
   destruct (add_tip_mono f s tip h HI2 Hw Hz) as (Hv' & Hle). destruct (add f s h) as [s' o]. cbn [fst] in *.
   assert (Hp': pos_hdrs hs) by (intros x Hx; apply Hp; right; exact Hx).
-  assert (Hrec: forall rc' fin', Valid (hres_store (hloop f next s' rc' fin' hs)) /\ tip_cum s <= tip_cum (hres_store (hloop f next s' rc' fin' hs))).
+  assert (Hrec: forall rc' fin', Valid (hres_store (hloop f cps next s' rc' fin' hs)) /\ tip_cum s <= tip_cum (hres_store (hloop f cps next s' rc' fin' hs))).
   { intros rc' fin'. destruct (IH s' rc' fin' Hv' Hp') as [H1 H2]. split; [exact H1| lia]. }
   assert (Hstop: Valid s' /\ tip_cum s <= tip_cum s') by (split; [exact Hv'| exact Hle]).
   destruct o as [x| | |]; try apply Hrec; try exact Hstop.
-  destruct next as [[H cid]|]; [|apply Hrec].
-  destruct (height (create_header s h) =? H); [|apply Hrec].
-  destruct (N.eqb (s_id h) cid); [apply Hrec| exact Hstop].
+  destruct next as [[H cid]|].
+  - destruct (height (create_header s h) =? H).
+    + destruct (N.eqb (s_id h) cid); [apply Hrec| exact Hstop].
+    + destruct (contradicts cps x (height (create_header s h)) (s_id h)); [exact Hstop| apply Hrec].
+  - destruct (contradicts cps x (height (create_header s h)) (s_id h)); [exact Hstop| apply Hrec].
 Qed.
 
 Definition pos_event (e : devent) := match e with EHeaders _ hs => pos_hdrs hs | _ => True end.
@@ -271,11 +275,11 @@ Qed.
 (* ---------------- competing branches: one reply ---------------- *)
 (* after a batch the reported tip carries at least the work of every connected header in the store - in particular of
    every header of the reply: a competing branch is adopted as soon as one reply brings a header that overtakes the tip *)
-Theorem fork_one_reply f next hs s rc fin s' rc' fin' : Valid s -> pos_hdrs hs ->
-  hloop f next s rc fin hs = HDone s' rc' fin' ->
+Theorem fork_one_reply f cps next hs s rc fin s' rc' fin' : Valid s -> pos_hdrs hs ->
+  hloop f cps next s rc fin hs = HDone s' rc' fin' ->
   Valid s' /\ tip_cum s <= tip_cum s' /\ forall r, In r s' -> orph r = false -> cum r <= tip_cum s'.
 Proof.
-  intros Hv Hp Hl. destruct (hloop_tip_mono f next hs s rc fin Hv Hp) as [Hv' Hle]. rewrite Hl in Hv', Hle. cbn [hres_store] in *.
+  intros Hv Hp Hl. destruct (hloop_tip_mono f cps next hs s rc fin Hv Hp) as [Hv' Hle]. rewrite Hl in Hv', Hle. cbn [hres_store] in *.
   split; [exact Hv'|]. split; [exact Hle|]. intros r Hr Ho.
   destruct (valid_tip s' Hv') as (t & HtB & _ & _ & _ & Hb). unfold tip_cum. rewrite HtB.
   destruct (best_spec s' t Hb) as (_ & newer & older & Es & Hn & Hol). rewrite Es in Hr.
@@ -285,7 +289,7 @@ Qed.
 (* the stated caveat: a reply in which no header joined the longest chain ends the conversation (no further request) *)
 Theorem stops_when_no_longest cfg st p c hs s' rc :
   aget p (d_states st) = Some c -> d_hfm st = true ->
-  hloop (c_forb cfg) (d_next st) (d_store st) false None hs = HDone s' rc None ->
+  hloop (c_forb cfg) (sm_cps cfg) (d_next st) (d_store st) false None hs = HDone s' rc None ->
   snd (on_headers cfg st p hs) = [] /\ d_next (fst (on_headers cfg st p hs)) = d_next st.
 Proof.
   intros Hst Hh Hl. unfold on_headers. rewrite Hst, Hh. cbn [negb].
